@@ -8,6 +8,17 @@ ENGINE_PROPS = ['C01', 'C02', 'C03', 'C04', 'C07', 'C08', 'C09', 'C12', 'C13', '
 
 # id -> (level category, technique, level text, level note, design section)
 CHECKS = {
+    'C07': (
+        'exploration',
+        'Hypothesis-generated forcing histories with run-sequence-salted values, checked after every step against the '
+        'store/evaluator model (forced flags, has_data, exact run sets, values)',
+        'All force entry points and flag combinations are interleaved with requests, new chains, MultiChains, restarts '
+        'and sessions; because each run embeds its sequence number, "replaced by the new result" and "dependant used the '
+        'input value of that time" are observable in the data; is_forced / has_data of every task of every live chain and '
+        'the exact set of runs are compared with the model after every step.',
+        'Handle-like values (directories, lazy readers) deleted under another chain are skipped; MultiChain.force by name.',
+        'DESIGN.md §3, §4 C07',
+    ),
     'C08': (
         'exploration',
         'Hypothesis-generated programs x config trees (plus labelled invalid mutations) compared with an independent '
@@ -52,6 +63,19 @@ CHECKS = {
         'Chain/InputTasks containers are exercised with directly assigned task maps; resolution through real chain '
         'construction is covered by C08.',
         'DESIGN.md §4 C10',
+    ),
+    'C01': (
+        'exploration',
+        'Hypothesis-generated histories over one shared data directory with provenance-revealing task values, compared '
+        'with an independent reference evaluation of each requesting configuration',
+        'Every generated run returns a digest of exactly what it received, so a stale, foreign or wrongly wired result '
+        'changes the value; 2-4 config variants that differ at any depth share one directory and are exercised through '
+        'chains, MultiChains, forcing, injected failures, restarts and pristine forked interpreters; every value returned '
+        'anywhere (and every task of every chain at the end, also from a fresh interpreter) must equal the reference '
+        'evaluation.',
+        'Deterministic task bodies (stated side condition); constant global_vars per history; quote-free strings (the '
+        'quote collision is C03\'s known finding); processes run sequentially.',
+        'DESIGN.md §3, §4 C01',
     ),
     'C02': (
         'exploration',
@@ -111,6 +135,17 @@ CHECKS = {
         'Placeholders only in string values (not mapping keys); identifier-like names.',
         'DESIGN.md §4 C11',
     ),
+    'C13': (
+        'exploration',
+        'Hypothesis-generated MultiChain histories compared with the reference model of the standalone chains '
+        '(identity structure, values, locations, run sets, forcing)',
+        'MultiChains over 2-4 generated config variants are compared member by member with the model of the standalone '
+        'chain; object identity across members must coincide exactly with "same task class and same key"; values '
+        'computed through one member must be served to the others without a run; forcing through the MultiChain must '
+        'reach every member and recompute shared tasks once.',
+        'Ignored parameters of shared objects are not compared; distinct member names.',
+        'DESIGN.md §4 C13',
+    ),
     'C14': (
         'exploration',
         'Hypothesis-generated operation sequences (get / get_or_compute / force / failing computer / sub-caches / re-open '
@@ -143,6 +178,39 @@ CHECKS = {
         'Completion order is controlled inside the mapped function; asyncio-internal scheduling is not. Calls are made '
         'from the main thread.',
         'DESIGN.md §4 C17',
+    ),
+    'C18': (
+        'exploration',
+        'Hypothesis-generated histories with tagged log messages and run-info records emitted by every run (also from '
+        'inside generator bodies), records of every stored result checked after every step against the run that produced it',
+        'Each run tags its messages and records with its run id; after every step the run info and log of every task whose '
+        'location was last written successfully are compared field by field (task, every parameter representation, input '
+        'keys, config, records, exact tagged message list, no foreign/garbled lines); failures, retries in the same '
+        'process and forced recomputations are part of the histories.',
+        'Nothing is asserted after a failed attempt until the next success; in-memory tasks are not checked.',
+        'DESIGN.md §4 C18',
+    ),
+    'C19': (
+        'exploration',
+        'differential testing: Hypothesis-generated task families run through TestChain / create_test_task and through a '
+        'generated real chain in which mocks are replaced by source tasks, plus a reference evaluation',
+        'For generated families, real/mock splits, parameter assignments (objects as definitions or instances, a '
+        'ChainObject parameter) and mock values (every data kind, falsy values, None) the helper\'s values must equal '
+        'those of a real chain built for the same family and the reference digest; mocks must never run nor be persisted, '
+        'also after forcing through the helper chain; missing inputs / parameters must be reported at construction.',
+        'One base_dir per assignment; the real-chain differential is skipped when a mock value is None.',
+        'DESIGN.md §4 C19',
+    ),
+    'C20': (
+        'exploration',
+        'Hypothesis-generated file-based pipelines with a generated subset of stored name-mode results and a generated '
+        'sequence of dry/real migrations, checked against the two reference key schemes and source-tree digests',
+        'A name-mode chain computes everything, a generated subset of results is deleted, migrate_to_parameter_mode is '
+        'called 1-3 times (dry / real); the parameter-mode chain on the target must have data for exactly the tasks that '
+        'had a result, load equal values with zero runs, the source tree must stay byte-identical, dry runs must write '
+        'nothing and a repeated real run must change nothing.',
+        'Name mode within its documented limits (no context, no file mounted twice).',
+        'DESIGN.md §4 C20',
     ),
 }
 
